@@ -132,6 +132,12 @@ func c11Build(cs *c11Case) (patch, file string, ex c11Expect) {
 		p.WriteString("-" + imp(patchName, c11Old) + "\n")
 		p.WriteString("+" + imp(patchName, c11New) + "\n")
 		newPkg = pkg
+	case "rename-name-keep-path":
+		// the same path under a new name; uses that the change does not
+		// rewrite keep referring to the old one
+		p.WriteString("-" + imp(patchName, c11Old) + "\n")
+		p.WriteString("+" + imp("renq", c11Old) + "\n")
+		newPkg = "renq"
 	case "delete":
 		p.WriteString("-" + imp(patchName, c11Old) + "\n")
 	case "add":
@@ -152,7 +158,7 @@ func c11Build(cs *c11Case) (patch, file string, ex c11Expect) {
 		patPkg = "oldp"
 	}
 	switch cs.Kind {
-	case "replace", "rename-path-keep-name":
+	case "replace", "rename-path-keep-name", "rename-name-keep-path":
 		to := map[bool]string{true: patPkg, false: newPkg}[cs.Kind == "rename-path-keep-name"]
 		method := "Do"
 		if to == patPkg {
@@ -288,6 +294,13 @@ func c11Build(cs *c11Case) (patch, file string, ex c11Expect) {
 			// of an unnamed import): whatever still says pkg.X refers to it
 			ex.MustNotHave = append(ex.MustNotHave, subject)
 		} else if stillUsed {
+			ex.MustHave = append(ex.MustHave, subject)
+		} else {
+			ex.MustNotHave = append(ex.MustNotHave, subject)
+		}
+	case "rename-name-keep-path":
+		ex.MustHave = append(ex.MustHave, c11Import{Name: "renq", Path: c11Old})
+		if stillUsed {
 			ex.MustHave = append(ex.MustHave, subject)
 		} else {
 			ex.MustNotHave = append(ex.MustNotHave, subject)
@@ -437,7 +450,7 @@ func evalC11(cs *c11Case) (sig, msg string, ex c11Expect) {
 }
 
 var (
-	c11Kinds     = []string{"replace", "replace", "rename-path-keep-name", "delete", "delete", "add", "match"}
+	c11Kinds     = []string{"replace", "replace", "rename-path-keep-name", "rename-name-keep-path", "delete", "delete", "add", "match"}
 	c11Remaining = []string{"none", "none", "plain", "nested-selector", "call-selector", "index-selector", "in-func-lit", "type-position", "shadowed-param", "shadowed-var", "shadowed-receiver"}
 	c11Layouts   = []string{"group", "singles", "two-blocks", "commented"}
 	c11ByPaths   = []string{"fmt", "os", "example.com/by/aa", "example.com/by/bb", "example.com/lib", "example.com/lib/oldp/sub", "example.com/lib/oldpx", "strings", "example.com/by/cc"}
